@@ -164,7 +164,7 @@ pub const C05: Spec = Spec {
   transform: identity,
   judge: c05_judge,
   opts: Opts::default,
-  quick: (8, 15000),
+  quick: (16, 15000),
   thorough: (16, 250000),
   extra: None,
   strategy: Some(c05_strategy),
@@ -263,7 +263,7 @@ fn c06_after_aborts(case: &Case, stats: &mut Stats) -> CheckResult {
 }
 
 fn c06_extra(_spec: &Spec, tier: Tier, seed: u64, known: &crate::driver::Known, report: &mut crate::driver::Report) {
-  let (shards, cases) = match tier { Tier::Quick => (8, 8000), Tier::Thorough => (16, 120000) };
+  let (shards, cases) = match tier { Tier::Quick => (16, 8000), Tier::Thorough => (16, 120000) };
   let acfg = super::roles::after_aborts_cfg(tier);
   let scfg = crate::driver::SearchCfg { prop: "C06", label: "after-aborts", seed, shards, cases_per_shard: cases, max_shrink_iters: 3000 };
   let (stats, found) = crate::driver::search(&scfg, known, || gen::case_strategy(acfg.clone()).boxed(), |c, s| c06_after_aborts(c, s), |c| pretty_case(c));
@@ -280,7 +280,7 @@ pub const C06: Spec = Spec {
   transform: identity,
   judge: c06_judge,
   opts: Opts::default,
-  quick: (8, 15000),
+  quick: (16, 15000),
   thorough: (16, 250000),
   extra: Some(c06_extra),
   strategy: Some(c06_strategy),
@@ -356,7 +356,7 @@ pub const C07: Spec = Spec {
   transform: identity,
   judge: c07_judge,
   opts: Opts::default,
-  quick: (8, 15000),
+  quick: (16, 15000),
   thorough: (16, 250000),
   extra: None,
   strategy: Some(c07_strategy),
